@@ -292,6 +292,11 @@ func (g *Gen) Next(run *Run) Op {
 			bl = append(bl, 40) // unknown blobber
 		case 3:
 			size = 1000 // below min_alloc_size
+		case 4, 5, 6:
+			// the same blobber named twice
+			if len(bl) >= 2 {
+				bl[len(bl)-1] = bl[r.Intn(len(bl)-1)]
+			}
 		}
 		// approximate cost to choose a value around the funding threshold
 		cost := 0.0
@@ -471,6 +476,9 @@ func (g *Gen) Next(run *Run) Op {
 			}
 			if r.Chance(1, 4) {
 				o.X |= xExtend
+			}
+			if len(in) > 0 && r.Chance(1, 8) {
+				o.Ad = in[r.Intn(len(in))] + 1 // a blobber the allocation already has
 			}
 		case 7:
 			o.X |= xTPE
@@ -776,6 +784,52 @@ func (g *Gen) Script(run *Run) *Op {
 		return &Op{K: "freealloc", Dt: 5, S: refClient + r.Intn(h.NCli), A: g.NLabel, B: 0, N: nonce, Bl: bl, F: pickF(r, []float64{1, 0.5, 2})}
 	}
 	switch g.script {
+	case "duplicate-blobber-alloc":
+		// a request whose blobber list names one blobber twice (and nothing else), then a close
+		switch g.step {
+		case 0, 2:
+			o := newAlloc()
+			if len(o.Bl) > 0 {
+				a0 := o.Bl[r.Intn(len(o.Bl))]
+				o.D, o.P = 1, 1
+				o.Bl = []int{a0, a0}
+				if g.step == 2 && nb > 1 {
+					o.D = 2
+					o.Bl = []int{a0, (a0 + 1) % nb, a0}
+				}
+			}
+			return o
+		case 1, 3:
+			l, a := firstOpen()
+			if a == nil {
+				g.step++ // nothing was created: go on
+				return &Op{K: "genchal", Dt: 5, S: refClient}
+			}
+			return &Op{K: "cancel", Dt: 5, S: a.Owner, A: l}
+		}
+	case "tiny-validator-reward":
+		// tiny files and challenges seconds apart: the validators' share of a pass is a handful of tokens
+		switch {
+		case g.step == 0:
+			return newAlloc()
+		case g.step <= 2:
+			l, a := firstOpen()
+			if a == nil || len(a.BAs) == 0 {
+				break
+			}
+			d := a.BAs[(g.step-1)%len(a.BAs)]
+			return &Op{K: "commit", Dt: r.Pick64([]int64{1, 5}), S: d.Blobber, A: l, B: d.Blobber, C: a.Owner,
+				N: r.Pick64([]int64{64 * KB, 128 * KB, 256 * KB, MB, 3 * MB})}
+		case g.step <= 22:
+			l, a := firstOpen()
+			if a == nil {
+				break
+			}
+			if len(a.OpenCh) > 0 && (g.step%2 == 0 || r.Chance(1, 2)) {
+				return &Op{K: "chalresp", Dt: r.Pick64([]int64{1, 1, 2}), A: l, N: int64(r.Intn(3))}
+			}
+			return &Op{K: "genchal", Dt: r.Pick64([]int64{1, 2, 3, 5, 8, 13, 30, 60}), Dr: r.Pick64([]int64{0, 1}), S: refClient}
+		}
 	case "free-out-of-order-replay":
 		// markers of one assigner redeemed out of numeric nonce order, then every one of them replayed
 		order := []int64{200, 100, 150, 300, 50}
